@@ -20,12 +20,12 @@ R(S) == RandomElement(S)
 MainLens == {30, 40, 40, 50, 60, 70}
 UnlLens == {5, 8, 8, 12}
 HtLens == {6, 9, 9, 14, 45}
-NameTags == {"X", "W", "B1", "Z", "I", "I_II", "2RL"}
+NameTags == {"X", "W", "B1", "Z", "I", "I_II", "2RL", "U"}
 Perm5(x) == R({<<1, 2, 3, 4, 5>>, <<5, 4, 3, 2, 1>>, <<2, 1, 4, 3, 5>>, <<3, 5, 1, 2, 4>>, <<4, 1, 5, 3, 2>>, <<2, 3, 4, 5, 1>>, <<5, 1, 2, 3, 4>>})
 \* one chromosome of one haplotype (dummy parameter: see PretextView.tla)
 RandChr(x) == [L |-> R(MainLens), nunl |-> R({0, 0, 1, 2, 3}), unl |-> <<R(UnlLens), R(UnlLens), R(UnlLens)>>, nht |-> R({0, 0, 1}), ht |-> R(HtLens),
                perm |-> Perm5(x), rev |-> <<R({1, -1}), R({1, -1}), R({1, -1}), R({1, -1}), R({1, -1})>>,
-               nm |-> IF Haps = 1 THEN R({"", "", "", "", "X", "W", "B1", "Z", "I", "I_II", "2RL"}) ELSE ""]
+               nm |-> IF Haps = 1 THEN R({"", "", "", "", "X", "W", "B1", "Z", "I", "I_II", "2RL", "U"}) ELSE ""]
 \* gnm: in two-haplotype maps a sex / B chromosome tag is carried by the chromosome of the first haplotype AND its (single) homologue
 RandGroup(x) == [first |-> RandChr(x), nhom |-> IF Haps = 1 THEN 0 ELSE R({1, 1, 1, 2, 0}), homs |-> <<RandChr(x), RandChr(x)>>,
                  gnm |-> IF Haps = 2 THEN R({"", "", "", "", "", "X", "W", "Z"}) ELSE ""]
